@@ -89,6 +89,10 @@ def cases(rng, tier, X):
         if k % 2 == 0:
             # the same kind of traffic with transmit refusals (the only platform fault this predicate is stated for) injected at random points
             out.append(('uf%d' % k, F.with_faults(rng, F.universal(rng), malloc=False, getters=False)))
+        if k % 2 == 1:
+            # ... and with memory refused as well, once every interface's record exists (`C05.history_any`: no stranger is ever answered,
+            # at most one Hello, who the mapper is does not depend on whether the Hello could be built)
+            out.append(('ufm%d' % k, F.with_faults(rng, F.universal(rng), getters=False, malloc_after_seen=True, rate=0.2)))
     return out
 
 
